@@ -412,3 +412,148 @@ func (l *Log) PositionsForRef(ref string) []int {
 	}
 	return out
 }
+
+// ---------------------------------------------------------------------------
+// file rules
+
+// NewCommits lists the commits entry i introduces to its reference: reachable
+// from its target and not from the target of the previous entry for the same
+// reference (all reachable commits if there is none). known is false when a
+// commit outside the simulator's ground truth is met.
+func (l *Log) NewCommits(i int) (out []*world.CommitTruth, known bool) {
+	e := l.entries()[i]
+	old := map[string]bool{}
+	if p := l.PrevForRef(i); p >= 0 {
+		stack := []string{l.entries()[p].Target}
+		for len(stack) > 0 {
+			id := stack[len(stack)-1]
+			stack = stack[:len(stack)-1]
+			if old[id] {
+				continue
+			}
+			old[id] = true
+			c, ok := l.W.CommitIdx[id]
+			if !ok {
+				return nil, false
+			}
+			stack = append(stack, c.Parents...)
+		}
+	}
+	seen := map[string]bool{}
+	stack := []string{e.Target}
+	for len(stack) > 0 {
+		id := stack[len(stack)-1]
+		stack = stack[:len(stack)-1]
+		if old[id] || seen[id] {
+			continue
+		}
+		seen[id] = true
+		c, ok := l.W.CommitIdx[id]
+		if !ok {
+			return nil, false
+		}
+		out = append(out, c)
+		stack = append(stack, c.Parents...)
+	}
+	sort.Slice(out, func(a, b int) bool { return out[a].ID < out[b].ID })
+	return out, true
+}
+
+// FileDecision is the model's judgement of entry i against the file rules of
+// the policy in force before it.
+type FileDecision struct {
+	OK          bool
+	Unspecified bool // merge commits or unknown commits are involved: the statement does not settle it
+	Protected   bool // some changed path is matched by a file rule
+	Why         string
+}
+
+// HasFileRule reports whether any reachable rule of the policy has a file pattern.
+func HasFileRule(p *world.PolicySpec) bool {
+	if p == nil {
+		return false
+	}
+	for _, f := range p.Files {
+		for _, r := range f.Rules {
+			for _, pat := range r.Patterns {
+				if strings.HasPrefix(pat, "file:") {
+					return true
+				}
+			}
+		}
+	}
+	return false
+}
+
+// DecideFiles: every path changed by every non-merge commit the entry newly
+// introduces must, if file rules match it, be vouched for by enough of the
+// matching rule's principals — the commit's own signature plus the approvals
+// recorded for the entry's change.
+func (l *Log) DecideFiles(i int) FileDecision {
+	p := l.PolicyBefore(i)
+	if p == nil {
+		return FileDecision{OK: true}
+	}
+	commits, known := l.NewCommits(i)
+	if !known {
+		return FileDecision{Unspecified: true, Why: "a commit outside the ground truth is involved"}
+	}
+	es := l.SignersFor(i)
+	trusted := map[string]bool{}
+	for _, a := range p.Apps {
+		if !a.Trusted {
+			continue
+		}
+		if sg, ok := es.Approvers[a.Name+"\x00signer"]; ok {
+			for _, k := range a.Keys {
+				if sg[fmt.Sprint(k)] {
+					trusted[a.Name] = true
+				}
+			}
+		}
+	}
+	d := FileDecision{OK: true}
+	for _, c := range commits {
+		paths := c.Changed
+		if len(c.Parents) > 1 {
+			// what a merge "changes" is not settled by the statement: unspecified as
+			// soon as a protected path exists on either side of it
+			sides := []map[string]string{c.Files}
+			for _, pid := range c.Parents {
+				if pc, ok := l.W.CommitIdx[pid]; ok {
+					sides = append(sides, pc.Files)
+				}
+			}
+			for _, files := range sides {
+				for path := range files {
+					if len(Walk(p, "file:"+path)) > 0 {
+						d.Unspecified = true
+						d.Why = "a merge commit is among the new commits and protected paths exist"
+					}
+				}
+			}
+			continue
+		}
+		for _, path := range paths {
+			vs := Walk(p, "file:"+path)
+			if len(vs) == 0 {
+				continue
+			}
+			d.Protected = true
+			s := Signers{ObjectKey: c.Signer, EnvelopeKeys: es.EnvelopeKeys, Approvers: es.Approvers}
+			met := false
+			for _, v := range vs {
+				if v.Threshold >= 1 && len(v.Principals) > 0 && Count(v.Principals, s, trusted) >= v.Threshold {
+					met = true
+					break
+				}
+			}
+			if !met {
+				d.OK = false
+				d.Why = fmt.Sprintf("commit %.10s (op %d, signer key %d) changes protected path %q and no file rule for it is met (approvals %v)", c.ID, c.OpID, c.Signer, path, keysOf(es.EnvelopeKeys))
+				return d
+			}
+		}
+	}
+	return d
+}
